@@ -77,7 +77,9 @@ contract('lib:Backend.get_default', types={'$params': ['self', 'path', 'default'
 contract('lib:Backend.exists', types={'$params': ['self', 'path'], 'path': 'Str', 'return': 'Bool'},
          ensures=['result == zk_exists(path)', 'all_same()'], assumed=True)
 contract('lib:Backend.list', types={'$params': ['self', 'path'], 'path': 'Str', 'return': 'List[Name]'},
-         raises={'ObjectNotFoundError': ['not zk_exists(path)', 'all_same()']},
+         raises={'ObjectNotFoundError': ['not zk_exists(path)', 'all_same()',
+                                         # ZooKeeper is a tree: a missing node has no children
+                                         'forall(lambda n: not zk_exists(cp(path, str_of(n))), "Name")']},
          ensures=['forall(lambda n: (n in result) == zk_exists(cp(path, str_of(n))), "Name")',
                   'forall(lambda n: exists(lambda j: 0 <= j and j < len(result) and result[j] == n, "Int") == '
                   '       zk_exists(cp(path, str_of(n))), "Name")',
